@@ -9,14 +9,14 @@ from fractions import Fraction
 import numpy as np
 from scipy.constants import angstrom
 
-from . import core, gem, hist
+from . import core, gem, hist, translate
 from .core import Outcome, PropertySpec
 
 from gemdat.jumps import Jumps  # noqa: E402
 from gemdat.transitions import Transitions, _calculate_transition_events, _calculate_transitions_matrix  # noqa: E402
 
 PID = 'C05'
-MODULES = ['GProofs.Geometry', 'GProofs.C05', 'GProofs.C05Lab']
+MODULES = ['GProofs.Geometry', 'GProofs.C05', 'GProofs.C05Lab', 'GProofs.C05Gen']
 
 
 def build_system(rng, T=None, A=None, n_sites=None, inner=None, labels_mode=None):
@@ -295,6 +295,7 @@ SPEC = PropertySpec(
     modules=MODULES,
     run=run,
     replay=replay,
+    gen=translate.gen_for('FormulasC05'),
     classify=classify,
     rule=('random systems: pool lattice (cubic to triclinic), 2-6 sites on a k/8 grid with 1-3 labels, 1-4 atoms, 4-60 frames of random '
           '(site, inner) histories (C03 generator), real Transitions/Jumps objects over a vibrating dyadic trajectory; 40% with a site structure carrying a 3-6 % different '
